@@ -29,7 +29,7 @@ func init() {
 		ID:       "C07",
 		Patterns: codecPatterns(),
 		Explanation: "Linear non-negative bounds analysis (no solver) over the SSA of every xprotocol decoder and matcher: lengths, wire length fields (keyed by buffer, offset, width so the same field read in caller and callee is one atom) and IoBuffer.Len()/len(Bytes()) are atoms; facts come from dominating guard edges; obligations a callee cannot discharge are lifted to its call sites. " +
-			"(B1) every index/slice/binary.UintN on bytes is within len (not cap) of what has arrived; (B2) Drain(n) only with n <= Len proven, n equals the length of the frame slice taken from offset 0, no Drain may precede a (nil,nil) return, and every need-more-data edge has the form Len < X with X <= n (tight: a complete frame is never held back) or X a constant <= the codec's minimal frame; (B3) matchers return MatchAgain exactly below a constant width <= the minimal frame and never decide on fewer bytes than they read; (B2d) Dispatch loops until empty/(nil,nil)/error and hands each decoded frame to handleFrame exactly once. (B2h) MFramer (HTTP/2): accesses in readFrameHeader/ReadFrame/ReadPreface are bounded (offsets non-negative by induction over call sites); a loop that re-reads frames at an offset advances it or drains; ReadFrame drains once, last, by the size it reports, after the header block was assembled; the connection HPACK decoder is written only when no further ReadFrame can follow.",
+			"(B1) every index/slice/binary.UintN on bytes is within len (not cap) of what has arrived; (B2) Drain(n) only with n <= Len proven, n equals the length of the frame slice taken from offset 0, no Drain may precede a (nil,nil) return, and every need-more-data edge has the form Len < X with X <= n (tight: a complete frame is never held back) or X a constant <= the codec's minimal frame; (B3) matchers return MatchAgain exactly below a constant width <= the minimal frame and never decide on fewer bytes than they read; (B2d) Dispatch loops until empty/(nil,nil)/error and hands each decoded frame to handleFrame exactly once. (B2h) MFramer (HTTP/2): accesses in readFrameHeader/ReadFrame/ReadPreface are bounded (offsets non-negative by induction over call sites); a loop that re-reads frames at an offset advances it or drains; ReadFrame drains once, last, by the size it reports, after the header block was assembled; the connection HPACK decoder is written only when no further ReadFrame can follow. (B3s) SelectStreamFactoryProtocol returns a protocol only on the nil answer of its matcher, keeps need-more-data sticky across candidates and answers FAILED only when nobody asked for more; proxy.OnData waits on EAGAIN without consuming. (B2r) every content-discarding call on connection.readBuffer in pkg/network is guarded by readBuffer.Len()==0, directly or at every caller.",
 		Run: runC07,
 	})
 }
